@@ -318,9 +318,10 @@ condition is set.  `code` is an `int` written when `> 0`.  The `<text/>` carries
 Modelled as the `<error/>` child of a holder `<iq xmlns="jabber:client">` (what `QXmppStanza::parse` hands over is
 `firstChildElement(stanza, "error")`).
 Canonical values: the URI is empty unless the condition is gone/redirect (the getter may still return an URI parsed from an
-EARLIER `<gone/>`; it is never written).  Outside the model (left out of the correspondence by the harness, still under
-the model-independent oracles): the XEP-0363 children `<file-too-large/>` / `<retry/>`, and an `<error/>` with neither
-type nor condition but with `by`, `code` or text (the class then writes nothing and forgets them). -/
+EARLIER `<gone/>`; it is never written), and `by`, `code`, text are unset when both type and condition are (`wrapGuard`:
+such an object is "no error" for the class, it serializes to nothing; the harness reports an error without type and
+condition as all-unset accordingly).  Outside the model (left out of the correspondence by the harness, still under the
+model-independent oracles): the XEP-0363 children `<file-too-large/>` / `<retry/>`. -/
 
 def errorTypes : List Str := ["cancel", "continue", "modify", "auth", "wait"].map s
 
@@ -332,7 +333,7 @@ def stanzaErrorFields : List Field := [
 
 def StanzaError : Schema :=
   { head := declHead "iq" nsClient, check := .unchecked, inh := [],
-    fields := [.child (anyHead "error" nsClient) stanzaErrorFields .wrapOmit] }
+    fields := [.child (anyHead "error" nsClient) stanzaErrorFields (.wrapGuard [false, true, false, true])] }
 
 /-! ### XEP-0045 `QXmppMucItem`, `QXmppMucAdminIq` (src/base/QXmppMucIq.cpp:179-245): affiliation and role are
 lower-cased before the lookup -/
@@ -358,7 +359,7 @@ def MucAdminIq := iqPayload (declHead "query" nsMucAdmin) [
 `parse` takes the first `<text/>`, the reason whose name comes FIRST IN THE ENUM among the children present, and the first
 child in the RTP-errors namespace.  The schema takes the first child (document order) bearing a known reason name; a
 `<reason/>` with two different reason names is outside the model (harness).  `toXml` writes nothing without a reason type
-(text / RTP condition alone are forgotten: outside the model as well). -/
+(`wrapGuard`: canonical values have text and RTP condition unset then). -/
 
 def nsJingle := s "urn:xmpp:jingle:1"
 def nsJingleRtpErrors := s "urn:xmpp:jingle:apps:rtp:errors:1"
@@ -371,7 +372,105 @@ def jingleReasonFields : List Field := [
   .enumChild nsJingleRtpErrors true false (["invalid-crypto", "crypto-required"].map s) false]
 def JingleReason : Schema :=
   { head := { tag := s "x", ns := [], decl := false, anyNs := false }, check := .unchecked, inh := [],
-    fields := [.child { tag := s "reason", ns := nsJingle, decl := true, anyNs := true } jingleReasonFields .wrapOmit] }
+    fields := [.child { tag := s "reason", ns := nsJingle, decl := true, anyNs := true } jingleReasonFields (.wrapGuard [false, true])] }
+
+/-! ### further small classes -/
+
+/-- `QXmppIbbDataIq` payload (src/base/QXmppIbbIq.cpp:213-238): `seq` via `parseInt<uint16_t>(…).value_or(0)` -/
+def IbbDataIq := iqPayload (declHead "data" nsIbb) [.attr (s "sid") .str false, .attr (s "seq") (.nat 16) false, .text .b64]
+
+/-- `QXmppHashUsed` (src/base/QXmppHash.cpp:164-180) -/
+def HashUsed := nonza (declHead "hash-used" nsHashes) [.attr (s "algo") (.enum hashAlgorithms) false]
+
+/-- `QXmppMamResultIq` payload (src/base/QXmppMamIq.cpp:241-262): `<fin/>` looked up by tag alone; the result-set reply
+inside as in `ResultSetReply` -/
+def nsMam := s "urn:xmpp:mam:2"
+def MamResultIq := iqPayload (declHead "fin" nsMam) [
+  .attr (s "complete") (.flag [s "true"]) true,
+  .child rsmSet [rsmFirst, rsmStr "last", rsmInt "count" (.optInt 31)] .wrapOmit]
+
+/-! ### `QXmppRosterIq` and its items (src/base/QXmppRosterIq.cpp:122-160, 409-470)
+
+Groups are a `QSet<QString>`: duplicates collapse and `toXml` writes them in hash order, so the value is the sorted set and
+documents are compared up to the order of the `<group/>` siblings.  An unknown `subscription` string leaves the type unset. -/
+
+def nsRoster := s "jabber:iq:roster"
+def nsMixRoster := s "urn:xmpp:mix:roster:0"
+def rosterItemFields (ns : Str) : List Field := [
+  .attr (s "jid") .str true, .attr (s "name") .str true,
+  .attr (s "subscription") (.enum (["none", "both", "from", "to", "remove"].map s)) true,
+  .attr (s "ask") .str true, .attr (s "approved") boolTrue1 true,
+  .strSet (anyHead "group" ns),
+  .child (declHead "channel" nsMixRoster) [.attr (s "participant-id") .str true] .optional]
+def RosterItem := unchecked { tag := s "item", ns := [], decl := false, anyNs := false } (rosterItemFields [])
+def RosterIq := iqPayload (declHead "query" nsRoster) [
+  .attr (s "ver") .str true, .flagChild (declHead "annotate" nsMixRoster),
+  .many (anyHead "item" nsRoster) (rosterItemFields nsRoster) false]
+
+/-! ### XEP-0004 `QXmppDataForm` (src/base/QXmppDataForm.cpp:792-1005), single-valued field types only
+
+`parse` ignores an element whose `type` is not a known form type (the form stays null) and `toXml` writes nothing for a
+null form: `wrapGuard` on `type`.  How a `<field/>` reads and writes its `<value/>` / `<option/>` children DEPENDS on the
+field type; the schema covers the five single-valued types (fixed, hidden, jid-single, text-private, text-single: the
+first `<value/>` is the value, written when non-empty, no options).  Forms with a boolean, `*-multi` or `list-*` field and
+fields with `<media/>` sources are OUTSIDE the model (the harness leaves such documents out of the correspondence; the
+model-independent oracles still run on them).  Modelled as the `<x/>` child of a holder. -/
+
+def nsData := s "jabber:x:data"
+def formFieldTypes : List Str := ["fixed", "hidden", "jid-single", "text-private", "text-single"].map s
+def dataFormFields : List Field := [
+  .attr (s "type") (.enum (["form", "submit", "cancel", "result"].map s)) true,
+  .textChild (anyHead "title" nsData) .str true, .textChild (anyHead "instructions" nsData) .str true,
+  .many (anyHead "field" nsData) [
+    .attr (s "type") (.enumD formFieldTypes 4) false, .attr (s "label") .str true, .attr (s "var") .str true,
+    .textChild (anyHead "value" nsData) .str true, .textChild (anyHead "description" nsData) .str true,
+    .flagChild (anyHead "required" nsData)] false]
+/-- the form as a child: `exact` = looked up by tag and namespace, else by tag alone -/
+def dataFormChild (exact : Bool) : Field :=
+  .child { tag := s "x", ns := nsData, decl := true, anyNs := !exact } dataFormFields (.wrapGuard [true, false, false, false])
+def DataForm : Schema :=
+  { head := { tag := s "holder", ns := [], decl := false, anyNs := false }, check := .unchecked, inh := [],
+    fields := [dataFormChild true] }
+
+/-- `QXmppMucOwnerIq` payload (src/base/QXmppMucIq.cpp:265-282): the form is `query.firstChildElement("x")` -/
+def nsMucOwner := s "http://jabber.org/protocol/muc#owner"
+def MucOwnerIq := iqPayload (declHead "query" nsMucOwner) [dataFormChild false]
+
+/-! ### XEP-0030 `QXmppDiscoveryIq` (src/base/QXmppDiscoveryIq.cpp:439-510), one schema per query type
+
+The namespace of `<query/>` selects info or items; every child is read whatever the query type (by tag name alone), but
+identities / features are written only for info, items only for items.  A `<query/>` of the other type is outside the
+respective schema, and so is one with several `<x xmlns="jabber:x:data"/>` children (each is parsed into the SAME form
+object, whose field list grows). -/
+
+def nsDiscoInfo := s "http://jabber.org/protocol/disco#info"
+def nsDiscoItems := s "http://jabber.org/protocol/disco#items"
+def DiscoInfoIq := iqPayload (declHead "query" nsDiscoInfo) [
+  .attr (s "node") .str true,
+  .many (anyHead "identity" nsDiscoInfo) [.attr (s "xml:lang") .str true, .attr (s "category") .str true,
+    .attr (s "name") .str true, .attr (s "type") .str true] false,
+  .many (anyHead "feature" nsDiscoInfo) [.attr (s "var") .str true] false,
+  dataFormChild true]
+def DiscoItemsIq := iqPayload (declHead "query" nsDiscoItems) [
+  .attr (s "node") .str true,
+  .many (anyHead "item" nsDiscoItems) [.attr (s "jid") .str true, .attr (s "name") .str true, .attr (s "node") .str true] false,
+  dataFormChild true]
+
+/-! ### vcard-temp value classes (src/base/QXmppVCardIq.cpp:150-210, 274-315, 378-466): type flags are empty child elements,
+looked up by tag alone; no type check, no namespace written -/
+
+def vcardHead (tag : String) : Head := { tag := s tag, ns := [], decl := false, anyNs := false }
+def vflag (tag : String) : Field := .flagChild (anyHead tag [])
+def VCardAddress := unchecked (vcardHead "ADR") [
+  vflag "HOME", vflag "WORK", vflag "POSTAL", vflag "PREF",
+  .textChild (anyHead "CTRY" []) .str true, .textChild (anyHead "LOCALITY" []) .str true,
+  .textChild (anyHead "PCODE" []) .str true, .textChild (anyHead "REGION" []) .str true,
+  .textChild (anyHead "STREET" []) .str true]
+def VCardEmail := unchecked (vcardHead "EMAIL") [
+  vflag "HOME", vflag "WORK", vflag "INTERNET", vflag "PREF", vflag "X400", .textChild (anyHead "USERID" []) .str false]
+def VCardPhone := unchecked (vcardHead "TEL") [
+  vflag "HOME", vflag "WORK", vflag "VOICE", vflag "FAX", vflag "PAGER", vflag "MSG", vflag "CELL", vflag "VIDEO",
+  vflag "BBS", vflag "MODEM", vflag "ISDN", vflag "PCS", vflag "PREF", .textChild (anyHead "NUMBER" []) .str false]
 
 /-- every modelled class by the name the harness uses -/
 def all : List (String × Schema) := [
@@ -394,7 +493,11 @@ def all : List (String × Schema) := [
   ("PubSubIqOptions", PubSubIqOptions), ("PubSubIqCreate", PubSubIqCreate), ("PubSubIqDelete", PubSubIqDelete),
   ("PubSubIqPurge", PubSubIqPurge), ("PubSubIqConfigure", PubSubIqConfigure), ("PubSubIqDefault", PubSubIqDefault),
   ("PubSubIqOwnerDefault", PubSubIqOwnerDefault),
-  ("StanzaError", StanzaError), ("MucItem", MucItem), ("MucAdminIq", MucAdminIq), ("JingleReason", JingleReason)]
+  ("StanzaError", StanzaError), ("MucItem", MucItem), ("MucAdminIq", MucAdminIq), ("JingleReason", JingleReason),
+  ("IbbDataIq", IbbDataIq), ("HashUsed", HashUsed), ("MamResultIq", MamResultIq),
+  ("RosterItem", RosterItem), ("RosterIq", RosterIq),
+  ("DataForm", DataForm), ("MucOwnerIq", MucOwnerIq), ("DiscoInfoIq", DiscoInfoIq), ("DiscoItemsIq", DiscoItemsIq),
+  ("VCardAddress", VCardAddress), ("VCardEmail", VCardEmail), ("VCardPhone", VCardPhone)]
 
 def find (name : String) : Option Schema := (all.find? (·.1 == name)).map (·.2)
 
